@@ -392,6 +392,84 @@ func checkSupervisorWaits(c *Ctx, p *Prog, rule string) {
 	if n == 0 {
 		c.R.Fail(rule, p.Name+":priority.Simple#waits", "-", "UNRESOLVED-ANCHOR: the supervising goroutine of v1 Simple has no wait")
 	}
+	// the graceful request is handed on: on the clause of the graceful signal the supervising
+	// goroutine calls GracefulStop() of the inner discipline (itself or in a helper goroutine it
+	// starts there) - otherwise GracefulStop() of the simplified discipline never ends
+	if rule != "E12" {
+		return // (termination is C07's business: items are still delivered exactly once without it)
+	}
+	callsInnerGraceful := func(rt *Routine) bool {
+		for _, sc := range rt.SubCalls {
+			if cal := p.Callee(sc); cal != nil && cal.Name() == "GracefulStop" {
+				return true
+			}
+		}
+		return false
+	}
+	for _, e := range d.Gos {
+		if e.Multi || e.Parent != nil {
+			continue
+		}
+		rt := p.Routine(d, e)
+		forwarded, haveClause := false, false
+		for _, fn := range rt.Funcs {
+			for _, sel := range Selects(fn) {
+				for _, cs := range p.SelectInfo(sel).Cases {
+					if p.stopRoleOf(cs.State.Chan) != "graceful" || cs.Body == nil {
+						continue
+					}
+					haveClause = true
+					for _, b := range fn.Blocks {
+						if !(cs.Body == b || cs.Body.Dominates(b)) {
+							continue
+						}
+						for _, in := range b.Instrs {
+							switch x := in.(type) {
+							case *ssa.Go:
+								for _, e2 := range d.Gos {
+									if e2.Stmt == x && callsInnerGraceful(p.Routine(d, e2)) {
+										forwarded = true
+									}
+								}
+							case *ssa.Call:
+								if cal := p.Callee(x); cal != nil {
+									if cal.Name() == "GracefulStop" && cal.Signature.Recv() != nil {
+										forwarded = true
+									} else if p.IsProduct(cal) {
+										for g := range p.Reach(cal) {
+											for _, bb := range g.Blocks {
+												for _, i2 := range bb.Instrs {
+													if c2, isC := i2.(*ssa.Call); isC {
+														if k := p.Callee(c2); k != nil && k.Name() == "GracefulStop" && k.Signature.Recv() != nil {
+															forwarded = true
+														}
+													}
+													if g2, isG := i2.(*ssa.Go); isG {
+														for _, e2 := range d.Gos {
+															if e2.Stmt == g2 && callsInnerGraceful(p.Routine(d, e2)) {
+																forwarded = true
+															}
+														}
+													}
+												}
+											}
+										}
+									}
+								}
+							}
+						}
+					}
+				}
+			}
+		}
+		key := p.FnKey(e.Entry) + "#graceful-forwarded"
+		if !haveClause {
+			c.R.Fail(rule, key, p.Pos(e.Entry.Pos()), "UNRESOLVED-ANCHOR: the supervising goroutine has no clause for the graceful request")
+			continue
+		}
+		c.R.Check(forwarded, rule, key, p.Pos(e.Entry.Pos()), "on the graceful request the inner discipline's GracefulStop() is called",
+			"on the graceful request nothing calls GracefulStop() of the inner discipline: it keeps waiting for more input, and GracefulStop() of the simplified discipline never returns although every input is closed and every item released")
+	}
 }
 
 // returnsBypassing: the returns of fn that can be reached from its entry without entering any
